@@ -767,7 +767,7 @@ def finish(ctx, info, results, known, fixed, extra_cov=None):
         funcs |= {f for f in r.functions if not f.startswith(("c%02d" % 0,))}
     real_funcs = sorted(f for f in funcs if not re.match(r"(c\d\d_|stubs|gen_)", f))
     n_ok_q = sum(1 for r in results if r.status in ("ok", "known"))
-    nontrivial = sum(1 for r in results if r.witness and r.n_props > 0 and r.status in ("ok", "known"))
+    nontrivial = sum(1 for r in results if r.witness and r.n_props > 0)
     wall = time.time() - ctx.t0
     cov = {
         "evaluations": len(results),
